@@ -1078,6 +1078,7 @@ fn cmd_check(a: &Args) -> i32 {
                 "locales_enumerated_first_by_read_dir": lay.dir_first.len(),
                 "locales_enumerated_last_by_read_dir": lay.dir_last.len(),
                 "directory_entries": names_of(&ctx.image, "data/cldr-misc-full/main").len(),
+                "stand_out_directory_entries_used_for_biased_placement": ctx.image.special.get("data/cldr-misc-full/main").map(|v| v.len()).unwrap_or(0),
                 "locales_iterated_first_out_of_the_map": lay.map_first.len(),
                 "locales_iterated_last_out_of_the_map": lay.map_last.len(),
                 "same_script_locale_pairs": ctx.pairs.len(),
